@@ -212,6 +212,19 @@ func evaluate(c Case, ctx int) verdict {
 		t = &Tamper{Msg: t.Msg, Name: t.Name, Dir: t.Dir, Path: "* (whole message)", Op: t.Op}
 	}
 	switch {
+	case (!seen || !found) && o.Err != "" && (c.Layer == "multiply" || c.Layer == "additive" || c.Layer == "extended" || c.Layer == "corre"):
+		// the run failed BEFORE the altered message was even reached, i.e. its honest prefix failed on the shared
+		// setup.  Every honest run of this case on this setup succeeded when the catalogue was built, so an earlier
+		// (refused) execution has damaged the long-lived setup: an altered multiplication must end in an error,
+		// not end the usability of the setup for every later honest one.
+		again := runLayer(Case{Layer: c.Layer, Vec: c.Vec, Batch: c.Batch, A: c.A, B: c.B, ATag: c.ATag, BTag: c.BTag, Choice: c.Choice, Ctxs: c.Ctxs}, ctx, newCtx(label+"|honest-again", nil))
+		if again.Err != "" || !again.Finished || !again.RelOK {
+			v.Class, v.Sig = "violation", fmt.Sprintf("setup-damaged-by-refused-execution|ot|%s", c.Layer)
+			v.Detail = fmt.Sprintf("%s: the honest part of the run fails (%s; side %s), and so does a completely honest run of the same inputs now (%s) although it succeeded before: an earlier execution that was refused has left the shared correlated-OT setup unusable", c.key(ctx), o.Err, o.ErrSide, again.Err)
+		} else {
+			hardErrs = append(hardErrs, fmt.Sprintf("%s: tamper site not reached (seen=%v found=%v; %+v)", c.key(ctx), seen, found, o))
+			v.Class = "trivial"
+		}
 	case !seen || !found:
 		hardErrs = append(hardErrs, fmt.Sprintf("%s: tamper site not reached (seen=%v found=%v; %+v)", c.key(ctx), seen, found, o))
 		v.Class = "trivial"
